@@ -32,7 +32,7 @@ ASSUMPTIONS = [
 ]
 CASES = {'quick': 12000, 'thorough': 160000}
 TIME = {'quick': 70, 'thorough': 560}
-MIN_NONTRIVIAL = {'quick': 2500, 'thorough': 30000}
+MIN_NONTRIVIAL = {'quick': 700, 'thorough': 8000}
 REQUIRED = ('twin_pairs', 'automated_steps_replayed_with_defaults',
             'decision_points_compared', 'terminal_pairs_compared',
             'subsets_seen', 'client_call_sequences_compared',
